@@ -489,7 +489,7 @@ func litInt(t string) (int64, bool) {
 
 // safety obligations are generated only while executing real code (not inside contract expressions)
 func (x *Exec) safety(kind string, node ast.Node, st *State, goal string, human string) {
-	if x.inContract > 0 {
+	if x.c.inContract > 0 {
 		return
 	}
 	ord := x.ord[node]
